@@ -526,6 +526,7 @@ func (vc *VC) assumeAfterInline(st *State, fc *FuncContract, sig *types.Signatur
 // defaultCall: unconstrained result; when effects is true every heap location is havocked
 // (the callee is in scope of no contract), otherwise only memory reachable from pointer-like arguments.
 func (vc *VC) defaultCall(st *State, name string, fn *ssa.Function, args []Val, rt types.Type, effects bool) Val {
+	vc.closureNotExecuted(st, name, args)
 	for _, a := range args {
 		vc.markEscaped(st, a)
 	}
@@ -811,6 +812,7 @@ func (vc *VC) applyContract(fx *FuncCtx, st *State, fc *FuncContract, sig *types
 	pkg := vc.prog.typesPkgOf(fc)
 	env := &SpecEnv{vc: vc, st: st, old: st, vars: map[string]*SV{}, pkg: pkg}
 	vc.bindParams(env, fc, sig, args)
+	vc.closureNotExecuted(st, callee, args)
 	for _, a := range args {
 		vc.markEscaped(st, a)
 	}
@@ -1171,4 +1173,30 @@ func (vc *VC) protoGetter(st *State, fn *ssa.Function, args []Val) (Val, bool) {
 		return m, true
 	}
 	return nil, false
+}
+
+// closureNotExecuted: under `locksafe` a closure that touches lock-protected fields must be executed in place (so that
+// its accesses are checked); handing it to a callee that is summarised by a contract or a default frame would skip them.
+func (vc *VC) closureNotExecuted(st *State, callee string, args []Val) {
+	if !vc.locksafe || vc.dry > 0 || vc.discovery {
+		return
+	}
+	if vc.guardedFns == nil {
+		vc.guardedFns = map[string]bool{}
+		for _, fns := range vc.prog.guardedAccessors() {
+			for _, f := range fns {
+				vc.guardedFns[f] = true
+			}
+		}
+	}
+	for _, a := range args {
+		fv, ok := a.(*FuncV)
+		if !ok {
+			continue
+		}
+		if f, ok := fv.Fn.(*ssa.Function); ok && vc.guardedFns[f.String()] {
+			o := &Obligation{Name: vc.fnName() + "#lock:closure " + f.Name() + " handed to " + callee, Kind: "stale", PC: st.pc, Goal: False(), Taint: "a closure touching lock-protected fields is passed to " + callee + ", which is not executed in place: its accesses cannot be checked (mark the callee `inline`)", Fn: vc.fnName(), Tags: tagsOf(vc.fc)}
+			vc.obls = append(vc.obls, o)
+		}
+	}
 }
